@@ -141,6 +141,27 @@ for l in sys.stdin:
     if e.get("Action") in ("pass", "fail") : res[(e.get("Package"), e.get("Test") or "")] = e["Action"]
 for k in sorted(res): print(k[0], k[1], res[k])'
 }
+DEMO[C01g]="F:budget_labels_test.go=pkg/controller.v1beta1/experiment/c01gdemo,labels_precedence_test.go=pkg/controller.v1beta1/util|./pkg/controller.v1beta1/experiment/c01gdemo/ ./pkg/controller.v1beta1/util/|-run TestTrial"
+DEMO[C02g]="F:seed_c02g_demo_test.go=pkg/controller.v1beta1/experiment/manifest|./pkg/controller.v1beta1/experiment/manifest/|-run TestSeedC02g"
+DEMO[C03g]="F:verdict_stability_reconcile_test.go=pkg/controller.v1beta1/experiment/verdictdemo,restartable_demo_test.go=pkg/controller.v1beta1/experiment/util|./pkg/controller.v1beta1/experiment/verdictdemo/ ./pkg/controller.v1beta1/experiment/util/|-run Verdict"
+DEMO[C04g]="F:quiescence_label_demo_test.go=pkg/controller.v1beta1/experiment/seedc04g|./pkg/controller.v1beta1/experiment/seedc04g/|"
+DEMO[C05g]="F:status_util_c05g_demo_test.go=pkg/controller.v1beta1/experiment/util|./pkg/controller.v1beta1/experiment/util/|-run TestC05g"
+DEMO[C06g]="F:job_util_c06g_demo_test.go=pkg/controller.v1beta1/trial/util,trial_c06g_demo_test.go=pkg/controller.v1beta1/trial/c06gdemo|./pkg/controller.v1beta1/trial/util/ ./pkg/controller.v1beta1/trial/c06gdemo/|-run TestC06g"
+DEMO[C07g]="F:c07g_demo_test.go=pkg/controller.v1beta1/trial/c07gdemo|./pkg/controller.v1beta1/trial/c07gdemo/|"
+DEMO[C08g]="F:seed_c08g_demo_test.go=pkg/controller.v1beta1/suggestion/suggestionclient|./pkg/controller.v1beta1/suggestion/suggestionclient/|-run TestSeedC08g"
+DEMO[C09g]="F:c09g_demo_test.go=pkg/controller.v1beta1/suggestion/suggestionclient|./pkg/controller.v1beta1/suggestion/suggestionclient/|-run TestC09g"
+DEMO[C10g]="F:recreated_experiment_demo_test.go=pkg/controller.v1beta1/suggestion/suggestionclient|./pkg/controller.v1beta1/suggestion/suggestionclient/|-run TestDemoRecreatedExperimentSearchSpace"
+DEMO[C11g]="F:c11g_demo_test.go=pkg/controller.v1beta1/trial|./pkg/controller.v1beta1/trial/trial_controller.go ./pkg/controller.v1beta1/trial/trial_controller_status.go ./pkg/controller.v1beta1/trial/trial_controller_util.go ./pkg/controller.v1beta1/trial/c11g_demo_test.go|-run TestC11g"
+DEMO[C12g]="F:seed_c12g_demo_test.go=pkg/webhook/v1beta1/pod|./pkg/webhook/v1beta1/pod/|-run TestSeedC12g"
+DEMO[C13g]="F:seed_c13g_demo_test.go=pkg/metricscollector/v1beta1/file-metricscollector|./pkg/metricscollector/v1beta1/file-metricscollector/|-run TestSeedC13g"
+DEMO[C14g]="F:admission_update_demo_test.go=pkg/webhook/v1beta1/experiment|./pkg/webhook/v1beta1/experiment/|-run TestAdmittedUpdateIsRunnable"
+DEMO[C15g]="F:c15g_nasconfig_update_demo_test.go=pkg/webhook/v1beta1/experiment/validator|./pkg/webhook/v1beta1/experiment/validator/|-run TestC15gNasConfigIsImmutableOnUpdate"
+DEMO[C16g]="F:c16g_demo_test.go=pkg/controller.v1beta1/experiment|./pkg/controller.v1beta1/experiment/experiment_controller.go ./pkg/controller.v1beta1/experiment/experiment_controller_status.go ./pkg/controller.v1beta1/experiment/experiment_controller_util.go ./pkg/controller.v1beta1/experiment/c16g_demo_test.go|-run TestC16gCleanupAfterRestart"
+DEMO[C17g]="F:c17g_demo_test.go=pkg/controller.v1beta1/suggestion/composer/c17gdemo|./pkg/controller.v1beta1/suggestion/composer/c17gdemo/|"
+DEMO[C18g]="F:earlystopped_history_demo_test.go=pkg/suggestion/v1beta1/goptuna|./pkg/suggestion/v1beta1/goptuna/|-run TestDemoC18g"
+DEMO[C19g]="F:seed_c19g_demo_test.go=pkg/db/v1beta1/postgres|./pkg/db/v1beta1/postgres/|-run TestSeedC19g"
+DEMO[C20g]="F:c20g_templates_authz_demo_test.go=pkg/ui/v1beta1|./pkg/ui/v1beta1/|-run TestC20g"
+
 place() { # copy demo files of seed $1 into the worktree
   local ID=$1 S=/tmp/seed/$1 spec=${DEMO[$1]}; local dest=${spec%%|*}
   case $dest in
